@@ -1,9 +1,127 @@
-import Zrnt.SSZ.Merkle
-/-! # C05 — hash-tree-roots agree across struct form, view form and the SSZ spec (under construction) -/
-namespace Zrnt.Proofs.C05
-open Zrnt.SSZ
+import Proofs.Lemmas.SSZTree
+import Proofs.Lemmas.SSZHtrSpec
+import Proofs.Lemmas.SSZCanonical
+/-!
+# C05 — hash-tree-roots agree across struct form, view form and the SSZ specification
 
-/-- mixing in the length is one application of the two-to-one hash -/
-theorem mixInLength_def (H : Hash2) (r : Chunk) (n : Nat) : mixInLength H r n = H r (natToLE 32 n) := rfl
+`Zrnt.SSZ.htr` is `hash_tree_root` of simple-serialize.md at a schema, parametric in the two-to-one hash `H`
+(no theorem depends on `H` being SHA-256). The Go struct form and the Go tree-view form are tied to it by the
+differential run of every type/value (mode `ssz`: struct root = view root = `htr` at the specification
+schema) and, for tree-backed states, by the mutation-sequence run (mode `sszstate`).
+
+What is proved here:
+* the algorithm that actually runs (`merkleize`: level by level, zero hashes instead of zero subtrees) is the
+  specification's `merkleize(chunks, limit)` — pad with zero chunks to the next power of two, hash the tree;
+* padding/limit lemmas, length mix-in injectivity up to a collision of `H`;
+* in the persistent cached tree model there is no stale hash: after any sequence of `setLeaf` the cached root
+  equals the root of the same leaves built from scratch, and `setLeaf` changes exactly the addressed leaf.
+
+Partial (stated in the evidence): ztyp's in-memory caching and pointer sharing are runtime behaviour of a
+dependency; `tree_root_after_sets` is about the model, the real trees are covered by the mutation-sequence
+correspondence only.
+-/
+namespace Zrnt.Proofs.C05
+open Zrnt.SSZ Zrnt.Proofs.SSZ
+
+/-- **merkleize = the specification's merkleize** for every chunk list within the limit `2^d`. -/
+theorem merkleize_eq_spec (H : Hash2) (cs : List Chunk) (d : Nat) (h : cs.length ≤ 2 ^ d) :
+    merkleize H cs d = merkleizeSpec H cs d :=
+  merkleize_eq_merkleizeSpec H cs d h
+
+/-- explicit zero chunks behind the data do not change the root (virtual padding = real padding) -/
+theorem merkleize_pad_zero (H : Hash2) (cs : List Chunk) (k d : Nat) (h : cs.length + k ≤ 2 ^ d) :
+    merkleize H (cs ++ List.replicate k zeroChunk) d = merkleize H cs d :=
+  merkleize_append_zero H cs k d h
+
+/-- `H` has a collision: two different input pairs with the same output -/
+def Collides (H : Hash2) : Prop := ∃ a b a' b', (a, b) ≠ (a', b') ∧ H a b = H a' b'
+
+/-- the length mix-in is injective in (root, length) unless `H` collides -/
+theorem mixInLength_inj (H : Hash2) (r r' : Chunk) (n n' : Nat) (hn : n < 2 ^ 256) (hn' : n' < 2 ^ 256)
+    (h : mixInLength H r n = mixInLength H r' n') : (r = r' ∧ n = n') ∨ Collides H := by
+  unfold mixInLength at h
+  by_cases hc : r = r' ∧ natToLE 32 n = natToLE 32 n'
+  · left
+    refine ⟨hc.1, ?_⟩
+    have e : (256 : Nat) ^ 32 = 2 ^ 256 := by decide
+    have h1 := leToNat_natToLE 32 n (by omega)
+    have h2 := leToNat_natToLE 32 n' (by omega)
+    rw [hc.2] at h1
+    omega
+  · right
+    refine ⟨r, natToLE 32 n, r', natToLE 32 n', ?_, h⟩
+    intro he
+    apply hc
+    exact ⟨(Prod.mk.inj he).1, (Prod.mk.inj he).2⟩
+
+/-- The root of a decoded byte string is a function of the bytes and the schema alone: what the struct form,
+the view form and the specification compute for the same bytes can only differ if one of them is not `htr`
+at that schema (which is what the correspondence run compares). -/
+theorem htr_determined_by_bytes (H : Hash2) (t : Ty) (bs : Bytes) (v w : Val)
+    (hv : decode t bs = some v) (hw : decode t bs = some w) : htr H t v = htr H t w := by
+  rw [hv] at hw; cases hw; rfl
+
+/-- **`htr` = the specification's `hash_tree_root`.** On every well-typed value of every type the executable
+`htr` (level-by-level merkleization that never materialises the zero padding, so that `List[Validator, 2^40]`
+is feasible) equals `htrSpec`, the same recursion over the schema with the literal `merkleize(chunks, limit)`
+of simple-serialize.md (pad with zero chunks to `next_pow_of_two(limit)` leaves, hash the perfect tree):
+packing of basic elements, chunk-count limits, field order, and length mix-ins are shared by construction. -/
+theorem htr_eq_spec (H : Hash2) (t : Ty) (v : Val) (hw : WF t v) : htr H t v = htrSpec H t v :=
+  htr_eq_htrSpec H t v hw
+
+/-- in particular for whatever the strict decoder accepts -/
+theorem htr_eq_spec_of_decode (H : Hash2) (t : Ty) (bs : Bytes) (v : Val) (h : decode t bs = some v) :
+    htr H t v = htrSpec H t v :=
+  htr_eq_htrSpec H t v (decode_some_aux t bs v h).1
+
+/-! ## The persistent tree behind the views: no stale caches (model) -/
+
+/-- apply a sequence of leaf updates -/
+def setMany (H : Hash2) (t : CTree) : List (List Bool × Chunk) → CTree
+  | [] => t
+  | (p, c) :: ops => setMany H (t.setLeaf H p c) ops
+
+theorem setMany_valid (H : Hash2) (t : CTree) (ops : List (List Bool × Chunk)) (hv : t.Valid H) :
+    (setMany H t ops).Valid H := by
+  induction ops generalizing t with
+  | nil => exact hv
+  | cons o ops ih => exact ih _ (set_valid H t o.1 o.2 hv)
+
+theorem setMany_perfect (H : Hash2) (d : Nat) (t : CTree) (ops : List (List Bool × Chunk)) (hp : CTree.Perfect d t) :
+    CTree.Perfect d (setMany H t ops) := by
+  induction ops generalizing t with
+  | nil => exact hp
+  | cons o ops ih => exact ih _ (set_perfect H d t o.1 o.2 hp)
+
+/-- **No stale cached hash.** After any sequence of leaf updates on a tree built with valid caches, the root
+the tree reports from its cache equals the root of the same leaves built from scratch (and equals the
+specification's tree root over the current leaf list). -/
+theorem tree_root_after_sets (H : Hash2) (d : Nat) (cs : List Chunk) (ops : List (List Bool × Chunk)) :
+    let t := setMany H (CTree.build H d cs) ops
+    t.cachedRoot = (CTree.build H d t.leaves).cachedRoot ∧ t.cachedRoot = treeRoot H d t.leaves := by
+  intro t
+  have hv : t.Valid H := setMany_valid H _ ops (build_valid H d cs)
+  have hp : CTree.Perfect d t := setMany_perfect H d _ ops (build_perfect H d cs)
+  have h1 : t.cachedRoot = t.rehash H := valid_hash H t hv
+  have h2 := rehash_build_leaves H d t hp
+  have h3 := valid_hash H _ (build_valid H d t.leaves)
+  refine ⟨by rw [h1, h3, h2], ?_⟩
+  rw [h1, ← h2, rehash_build]
+
+/-- a leaf update changes exactly the addressed leaf (`tree_set_get` / `tree_set_other`) -/
+theorem tree_set_leaves (H : Hash2) (d : Nat) (t : CTree) (p : List Bool) (c : Chunk)
+    (hp : CTree.Perfect d t) (hl : p.length = d) :
+    (t.setLeaf H p c).leaves = t.leaves.set (CTree.pathIndex p) c :=
+  leaves_set H d t p c hp hl
+
+/-! ## Non-vacuity -/
+
+def xorH : Hash2 := fun a b => (a.zip b).map fun (x, y) => x ^^^ (y + 1)
+
+example : merkleize xorH [[1], [2], [3]] 2 = merkleizeSpec xorH [[1], [2], [3]] 2 := by decide
+example : ([[1], [2], [3]] : List Chunk).length ≤ 2 ^ 2 := by decide
+example : (CTree.build xorH 2 [[1], [2], [3], [4]]).Valid xorH := build_valid _ _ _
+example : ((CTree.build xorH 2 [[1], [2], [3], [4]]).setLeaf xorH [true, false] [9]).leaves = [[1], [2], [9], [4]] := by
+  decide
 
 end Zrnt.Proofs.C05
